@@ -82,3 +82,19 @@ def load_source(src: str, prelude: str = PRELUDE, keep: bool = False):
 
 def load_function(src: str, name: str = 'f', prelude: str = PRELUDE):
     return getattr(load_source(src, prelude), name)
+
+
+def drop_interpreter_cache():
+    """fpy2's default interpreter keeps every compiled function (and with it the AST and its source
+    tokens) in `func_cache` for the life of the process; checks that load thousands of generated
+    programs call this between programs, and the runner calls it after every shard."""
+    fpy2 = sys.modules.get('fpy2')
+    if fpy2 is None:
+        return
+    try:
+        rt = fpy2.get_default_interpreter()
+    except Exception:       # noqa: BLE001
+        return
+    cache = getattr(rt, 'func_cache', None)
+    if cache is not None:
+        cache.clear()
